@@ -71,6 +71,11 @@ CHECKS = {
         technique="TLA+ case space and outcome contract (Restore.tla, 118 584 cases enumerated by TLC); seeded samples of the cases concretised by an independent RDB writer, parsed by the real Loader and restored by the real RestoreRdbEntry into a model Redis with per-case personality; every command and the final key judged by TLC (FsTrace.tla)",
         text="The property is a decision table over entry x configuration x target state; TLC enumerates the full case space with the contract's outcome per case and a seeded sample (quick ~1 800, thorough ~12 000 distinct cases, plus chunked hashes) is executed on the real code: value equality by the harness's own decoder, TTL window, untouched-ness of existing keys under none/ignore, error reporting, no abort for any version string, no DEL outside rewrite.",
         note="mredis stands in for Redis (BUSYKEY texts, REPLACE / IDLETIME / FREQ support, Bad data format); an RDB carries LRU or LFU hints, never both; TTL tolerance 3 s."),
+    "C05": dict(
+        level="model_checking", design="DESIGN.md 4/C05",
+        technique="TLA+ model of the byte pipeline wire -> bufio -> {header parser | bounded copy | stream copy} -> pipe (Handoff.tla) model-checked by TLC for every fragmentation of small streams; a scripted TCP source drives the real sendPSyncCmd / runIncrementalSync / dump worker with framing and fragmentation variants (boundary splits, TLC-simulated segmentations) and TLC judges the recorded observations (HandoffTrace.tla)",
+        text="The design property (output always a prefix of RDB ++ commands, remaining count never negative, completion) is model-checked for all fragmentations at small sizes; the binding feeds the real hand-off code over TCP with ~250 (quick) framing x size x fragmentation cases in PSYNC and dump mode, comparing every output byte, the dump file, and the run id / offset / size used afterwards with what the source announced.",
+        note="Kernel segment coalescing can hide an intended split (coverage, not soundness); fakesrc stands in for the master; > 32 MiB streams only in the thorough tier."),
 }
 
 NOT_YET = "check not built yet in this session (work in progress; see DESIGN.md section 7 for the order)"
